@@ -1,17 +1,19 @@
 import os
 from checks.generic import standard
 
-THEOREMS = ["c06_gate_sound", "c06_identity_real", "c06_never_denied", "c06_never_outside", "c06_csrf",
+THEOREMS = ["c06_gate_sound", "c06_identity_real", "c06_never_denied", "c06_deny_no_position", "c06_never_outside",
+            "c06_basic_only_without_cookie", "c06_webui_without_password", "c06_csrf",
             "c06_routes", "c06_public_no_effect", "c06_csrf_partial", "c06_csrf_nonget",
-            "c06_get_state_changers", "c06_get_effects_refuted", "c06_old_manage_refuted", "c06_old_tls_refuted"]
+            "c06_get_state_changers", "c06_get_effects_refuted", "c06_old_manage_refuted", "c06_old_register_finish_refuted", "c06_old_tls_refuted"]
 
 def run(ctx):
     return standard(ctx,
         props=[("Props.C06", THEOREMS)],
-        harness=("TestVerif_C06", ["kmd/common.go", "kmd/creds.go", "kmd/consts.go", "kmd/c06.go"]),
+        harness=("TestVerif_C06", ["kmd/common.go", "kmd/creds.go", "kmd/consts.go", "kmd/vdevice.go", "kmd/c06.go"]),
         obl=("Obl_C06.v", ["c06_routes_classified", "c06_no_stale_rows", "c06_keys_unique"]),
-        cases=("CasesC06.v", [("c06_gate_mismatches", "checkAuth (user, level, status, issue instant) = model check_auth on every shape x mask x method x origin"),
-                              ("c06_route_mismatches", "per route of the regenerated mux: logged identity = model, observed effects within the model's")],
+        cases=("CasesC06.v", [("c06_gate_mismatches", "checkAuth (user, level, status, issue instant) = model check_auth on every shape (single credentials and certificate x cookie x basic-auth combinations) x mask x method x origin x deny list", "CasesC06_gate.idx"),
+                              ("c06_route_mismatches", "per route of the regenerated mux: logged identity = model, observed effects within the model's"),
+                              ("c06_webui_mismatches", "getRequiredWebUIAuthLevel() = model webui_level on every subset of the backend names and on the loaded configurations", "CasesC06_webui.idx")],
                "CasesC06_route.idx"),
         trusted=["signature verification (go-jose, crypto/x509 chain building) is symbolic in the model: the harness knows by construction which token / chain is genuine and the real verifier has to find out from the bytes",
                  "the access log's user field (LoggingWriter.SetUsername, called by every handler right after checkAuth) is the observable for 'admitted as'",
@@ -19,7 +21,7 @@ def run(ctx):
                  "fake Symantec VIP, Okta and AWS STS endpoints; SQLite stands in for PostgreSQL"],
         assumptions=["TLS chain verification is done by crypto/tls; the harness supplies VerifiedChains built from certificates really signed by the state's CA keys",
                      "the password attempt limiter is configured wide open (limiter_ok = true in every case)"],
-        unproved=["handler steps after admission (parameter validation, storage) are one environment bit per request in the route model; the effects of /u2f/RegisterResponse, /webauthn/RegisterFinish, /webauthn/AuthFinish, /u2f/SignResponse, /totp/ValidateNew, /idp/oauth2/token, /userinfo, the federated callback and Okta poll are not provoked by the harness (no authenticator / provider fake), only their refusal is observed"],
+        unproved=["handler steps after admission (parameter validation, storage) are one environment bit per request in the route model; the effects of /webauthn/AuthFinish, /userinfo, the federated callback and Okta poll approval are not provoked by the harness (no provider fake), only their refusal is observed; /u2f/RegisterResponse, /webauthn/RegisterFinish, /u2f/SignResponse, /totp/ValidateNew and /idp/oauth2/token are driven to their effect with genuine material (software token, pending TOTP secret, an authorization code issued by the authorization endpoint)"],
         timeout=1500,
         # the probes restore the profile tables thousands of times: keep the scratch database off the disk
         env=({"TMPDIR": "/dev/shm"} if os.path.isdir("/dev/shm") and os.access("/dev/shm", os.W_OK) else None))
